@@ -25,10 +25,11 @@ Inductive ev :=
 | EConnect (c : nat)                 (* asyncio.open_connection called *)
 | ERead (c : nat)                    (* reader.read called *)
 | EWrite (c : nat) | EEof (c : nat) | EClose (c : nat)   (* writer.write / write_eof / close *)
+| EDrainWait (d : nat)               (* writer d: drain() blocks *)
 | ECrash                             (* server_event: except Exception *)
 | EDone (t : tid) (k : nat).         (* coroutine finished: 0 returned, 1 CancelledError, 2 other exception *)
 
-Inductive payload := PNone | PKill (b : bool) | PReadR (r : rres) | PConnR (ok : bool).
+Inductive payload := PNone | PKill (b : bool) | PReadR (r : rres) | PConnR (ok : bool) | PDrainR (ok : bool).
 Inductive wstat := WPending | WWoken | WCancelled.
 Inductive wst := WNone | WOpen | WClosed.
 
@@ -44,11 +45,13 @@ Inductive exitk :=
 
 Inductive cpc :=
 | P0 | PHookConnect | PHookErrKilled | PSem (w : wstat) | PConnecting | PHookErr (canc : bool)
-| PHookConnected | PRead | PEvent | PHookDisc (canc : bool) | PDone (x : exitk).
+| PHookConnected | PRead | PDrainLock (w : wstat) | PDrain (d : nat) (rest : list nat) | PEvent
+| PHookDisc (canc : bool) | PDone (x : exitk).
 
 Record conn := mkConn {
   c_addr : option nat; c_pc : cpc; c_wk : option payload; c_cf : bool; c_task : bool;
-  c_entry : bool; c_writer : wst; c_broken : bool; c_rd : bool; c_wr : bool; c_err : bool }.
+  c_entry : bool; c_writer : wst; c_broken : bool; c_rd : bool; c_wr : bool; c_err : bool;
+  c_cong : bool (* writer above its high-water mark: drain() blocks *) }.
 
 Inductive mpc := M0 | MHookConn | MWaitHandler | MHookDisc | MWaitAll (ws : list nat) | MDone (k : nat).
 Inductive hpc := H0 | HHook (completed : bool) | HDone.
@@ -56,11 +59,14 @@ Inductive hpc := H0 | HHook (completed : bool) | HDone.
 Record st := mkSt {
   conns : list conn; mainpc : mpc; mwk : option bool; client_err : bool; hooks : list hpc;
   semval : nat -> nat; semq : nat -> list nat; script : list (list cmd); trace : list ev;
-  teardown_n : option nat }.
+  teardown_n : option nat;
+  dlocked : bool; dlockq : list nat (* self._drain_lock: held, FIFO waiters *) }.
 
 Inductive item :=
 | AHook (t : tid) (kill : bool) | ARead (c : nat) (r : rres) | AConn (c : nat) (ok : bool)
 | ATimeout | ABreak (c : nat)
+| ACongest (c : nat)                 (* writer c is above its high-water mark from now on *)
+| ADrainDone (c : nat) (ok : bool)   (* the drain() task c is blocked in returns / raises OSError *)
 | Run (t : tid) (thrown : bool).
 
 (* ---------------------------------------------------------------- helpers *)
@@ -71,39 +77,44 @@ Fixpoint upd {A} (l : list A) (n : nat) (x : A) : list A :=
   | h :: t, S n' => h :: upd t n' x
   end.
 
-Definition dconn : conn := mkConn None (PDone XNoAddr) None false false false WNone false false false false.
+Definition dconn : conn := mkConn None (PDone XNoAddr) None false false false WNone false false false false false.
 Definition getc (s : st) (c : nat) : conn := nth c (conns s) dconn.
 
 Definition set_conns (s : st) (l : list conn) : st :=
-  mkSt l (mainpc s) (mwk s) (client_err s) (hooks s) (semval s) (semq s) (script s) (trace s) (teardown_n s).
+  mkSt l (mainpc s) (mwk s) (client_err s) (hooks s) (semval s) (semq s) (script s) (trace s) (teardown_n s) (dlocked s) (dlockq s).
 Definition setc (s : st) (c : nat) (x : conn) : st := set_conns s (upd (conns s) c x).
 Definition emit (s : st) (e : ev) : st :=
-  mkSt (conns s) (mainpc s) (mwk s) (client_err s) (hooks s) (semval s) (semq s) (script s) (e :: trace s) (teardown_n s).
+  mkSt (conns s) (mainpc s) (mwk s) (client_err s) (hooks s) (semval s) (semq s) (script s) (e :: trace s) (teardown_n s) (dlocked s) (dlockq s).
 Definition set_main (s : st) (p : mpc) (w : option bool) : st :=
-  mkSt (conns s) p w (client_err s) (hooks s) (semval s) (semq s) (script s) (trace s) (teardown_n s).
+  mkSt (conns s) p w (client_err s) (hooks s) (semval s) (semq s) (script s) (trace s) (teardown_n s) (dlocked s) (dlockq s).
 Definition set_sem (s : st) (a v : nat) (q : list nat) : st :=
   mkSt (conns s) (mainpc s) (mwk s) (client_err s) (hooks s)
        (fun b => if Nat.eqb b a then v else semval s b) (fun b => if Nat.eqb b a then q else semq s b)
-       (script s) (trace s) (teardown_n s).
+       (script s) (trace s) (teardown_n s) (dlocked s) (dlockq s).
 
 Definition with_pc (x : conn) (p : cpc) : conn :=
-  mkConn (c_addr x) p (c_wk x) (c_cf x) (c_task x) (c_entry x) (c_writer x) (c_broken x) (c_rd x) (c_wr x) (c_err x).
+  mkConn (c_addr x) p (c_wk x) (c_cf x) (c_task x) (c_entry x) (c_writer x) (c_broken x) (c_rd x) (c_wr x) (c_err x) (c_cong x).
 Definition with_wake (x : conn) (w : option payload) (cf : bool) : conn :=
-  mkConn (c_addr x) (c_pc x) w cf (c_task x) (c_entry x) (c_writer x) (c_broken x) (c_rd x) (c_wr x) (c_err x).
+  mkConn (c_addr x) (c_pc x) w cf (c_task x) (c_entry x) (c_writer x) (c_broken x) (c_rd x) (c_wr x) (c_err x) (c_cong x).
 Definition with_state (x : conn) (rd wr : bool) : conn :=
-  mkConn (c_addr x) (c_pc x) (c_wk x) (c_cf x) (c_task x) (c_entry x) (c_writer x) (c_broken x) rd wr (c_err x).
+  mkConn (c_addr x) (c_pc x) (c_wk x) (c_cf x) (c_task x) (c_entry x) (c_writer x) (c_broken x) rd wr (c_err x) (c_cong x).
 Definition with_io (x : conn) (entry : bool) (w : wst) : conn :=
-  mkConn (c_addr x) (c_pc x) (c_wk x) (c_cf x) (c_task x) entry w (c_broken x) (c_rd x) (c_wr x) (c_err x).
+  mkConn (c_addr x) (c_pc x) (c_wk x) (c_cf x) (c_task x) entry w (c_broken x) (c_rd x) (c_wr x) (c_err x) (c_cong x).
 
 Definition with_err (x : conn) : conn :=
-  mkConn (c_addr x) (c_pc x) (c_wk x) (c_cf x) (c_task x) (c_entry x) (c_writer x) (c_broken x) (c_rd x) (c_wr x) true.
+  mkConn (c_addr x) (c_pc x) (c_wk x) (c_cf x) (c_task x) (c_entry x) (c_writer x) (c_broken x) (c_rd x) (c_wr x) true (c_cong x).
+
+Definition with_cong (x : conn) (b : bool) : conn :=
+  mkConn (c_addr x) (c_pc x) (c_wk x) (c_cf x) (c_task x) (c_entry x) (c_writer x) (c_broken x) (c_rd x) (c_wr x) (c_err x) b.
+Definition set_lock (s : st) (b : bool) (q : list nat) : st :=
+  mkSt (conns s) (mainpc s) (mwk s) (client_err s) (hooks s) (semval s) (semq s) (script s) (trace s) (teardown_n s) b q.
 
 Definition is_done (p : cpc) : bool := match p with PDone _ => true | _ => false end.
 
 (* Task.cancel() *)
 Definition cancel_conn (x : conn) : conn :=
   if is_done (c_pc x) then x
-  else with_wake (with_pc x (match c_pc x with PSem WPending => PSem WCancelled | p => p end)) (c_wk x) true.
+  else with_wake (with_pc x (match c_pc x with PSem WPending => PSem WCancelled | PDrainLock WPending => PDrainLock WCancelled | p => p end)) (c_wk x) true.
 Definition cancel (s : st) (c : nat) : st := setc s c (cancel_conn (getc s c)).
 
 (* ---------------------------------------------------------------- asyncio.Semaphore (3.12) *)
@@ -136,7 +147,7 @@ Definition release_of (s : st) (c : nat) : st :=
 
 (* ---------------------------------------------------------------- server_event *)
 Definition new_conn (a : option nat) : conn :=
-  mkConn a P0 (Some PNone) false true true WNone false false false false.
+  mkConn a P0 (Some PNone) false true true WNone false false false false false.
 
 (* close_connection; result false = an exception other than OSError escaped (assert) *)
 Definition close_connection (s : st) (c : nat) (half : bool) : st * bool :=
@@ -160,7 +171,7 @@ Definition do_cmd (s : st) (k : cmd) : st * bool :=
   match k with
   | COpen a => (set_conns s (conns s ++ [new_conn a]), true)
   | CHook => (mkSt (conns s) (mainpc s) (mwk s) (client_err s) (hooks s ++ [H0]) (semval s) (semq s)
-                   (script s) (trace s) (teardown_n s), true)
+                   (script s) (trace s) (teardown_n s) (dlocked s) (dlockq s), true)
   | CLog => (s, true)
   | CSend c =>
     if negb (Nat.ltb c (length (conns s))) then (s, true)
@@ -195,21 +206,8 @@ Definition server_event (s : st) (e : levent) : st :=
   | [] => s1
   | ks :: rest =>
     do_cmds (mkSt (conns s1) (mainpc s1) (mwk s1) (client_err s1) (hooks s1) (semval s1) (semq s1) rest
-                  (trace s1) (teardown_n s1)) ks
+                  (trace s1) (teardown_n s1) (dlocked s1) (dlockq s1)) ks
   end.
-
-(* drain_writers: every transport with a writer; OSError -> handler.cancel *)
-Fixpoint drain_from (s : st) (n : nat) (i : nat) : st :=
-  match n with
-  | O => s
-  | S n' =>
-    let x := getc s i in
-    let s' := if c_entry x && c_task x && c_broken x &&
-                 match c_writer x with WOpen => true | _ => false end
-              then cancel s i else s in
-    drain_from s' n' (S i)
-  end.
-Definition drain_writers (s : st) : st := drain_from s (length (conns s)) 0.
 
 (* ---------------------------------------------------------------- a connection task runs *)
 Definition finish (s : st) (c : nat) (x : exitk) (k : nat) : st :=
@@ -235,6 +233,55 @@ Definition hc_after_loop (s : st) (c : nat) (canc : bool) : st :=
   else hc_cleanup s2 c canc.
 
 Definition hc_read (s : st) (c : nat) : st := goto (emit s (ERead c)) c PRead.
+
+(* ---------------------------------------------------------------- drain_writers
+   async with self._drain_lock (asyncio.Lock 3.12: FIFO, acquire succeeds at once iff unlocked and
+   every queued waiter is cancelled, _wake_up_first looks at the first queued future only), then
+   for every transport of a snapshot that has a writer: await writer.drain().  drain() returns at
+   once, raises OSError at once (broken writer), or -- writer above its high-water mark -- blocks
+   until the schedule completes it (ok / OSError) or the task is cancelled. *)
+Definition lock_waiter_live (s : st) (c : nat) : bool :=
+  match c_pc (getc s c) with PDrainLock WPending => true | PDrainLock WWoken => true | _ => false end.
+Definition lock_free (s : st) : bool := negb (dlocked s) && negb (existsb (lock_waiter_live s) (dlockq s)).
+Definition wake_first (s : st) : st :=
+  match dlockq s with
+  | [] => s
+  | d :: _ => match c_pc (getc s d) with
+              | PDrainLock WPending =>
+                setc s d (with_wake (with_pc (getc s d) (PDrainLock WWoken)) (Some PNone) (c_cf (getc s d)))
+              | _ => s
+              end
+  end.
+Definition lock_release (s : st) : st := if dlocked s then wake_first (set_lock s false (dlockq s)) else s.
+
+(* list(self.transports.values()) restricted to entries with a writer, in insertion order *)
+Fixpoint with_writer (l : list conn) (i : nat) : list nat :=
+  match l with
+  | [] => []
+  | x :: l' => if c_entry x && match c_writer x with WNone => false | _ => true end
+               then i :: with_writer l' (S i) else with_writer l' (S i)
+  end.
+
+(* handler.cancel after OSError in drain *)
+Definition drain_error (s : st) (d : nat) : st := if c_task (getc s d) then cancel s d else s.
+
+Fixpoint drain_go (s : st) (c : nat) (l : list nat) : st :=
+  match l with
+  | [] => hc_read (lock_release s) c       (* lock released; back to reader.read *)
+  | d :: l' =>
+    let x := getc s d in
+    match c_writer x with
+    | WOpen =>
+      if c_broken x then drain_go (drain_error s d) c l'
+      else if c_cong x then goto (emit s (EDrainWait d)) c (PDrain d l')
+      else drain_go s c l'
+    | _ => drain_go s c l'
+    end
+  end.
+
+Definition drain_start (s : st) (c : nat) : st :=
+  if lock_free s then drain_go (set_lock s true (dlockq s)) c (with_writer (conns s) 0)
+  else goto (set_lock s (dlocked s) (dlockq s ++ [c])) c (PDrainLock WPending).
 
 (* body of async with: the connect attempt starts *)
 Definition enter_sem_body (s : st) (c : nat) : st := goto (emit s (EConnect c)) c PConnecting.
@@ -303,8 +350,28 @@ Definition run_conn (s0 : st) (c : nat) : st :=
   | PRead =>
     if cf then hc_after_loop s c true
     else match wk with
-         | Some (PReadR RData) => hc_read (drain_writers (server_event s (LData c))) c
+         | Some (PReadR RData) => drain_start (server_event s (LData c)) c
          | _ => hc_after_loop s c false
+         end
+  | PDrainLock w =>
+    let s1 := set_lock s (dlocked s) (remove1 c (dlockq s)) in
+    if cf then
+      match w with
+      | WPending => s0    (* cancel() turns a pending waiter into a cancelled one: not reachable *)
+      | _ => hc_after_loop (if dlocked s1 then s1 else wake_first s1) c true
+      end
+    else
+      match w with
+      | WWoken => drain_go (set_lock s1 true (dlockq s1)) c (with_writer (conns s1) 0)
+      | _ => s0
+      end
+  | PDrain d rest =>
+    if cf then hc_after_loop (lock_release s) c true
+    else match wk with
+         | Some (PDrainR ok) =>
+           let s1 := setc s d (with_cong (getc s d) false) in
+           drain_go (if ok then s1 else drain_error s1 d) c rest
+         | _ => s0
          end
   | PEvent =>
     if cf then hc_cleanup s c true else s
@@ -353,7 +420,7 @@ Definition run_main (s : st) : st :=
   | MHookConn =>
     let kill := match mwk s with Some true => true | _ => false end in
     let s1 := mkSt (conns s) (mainpc s) None (client_err s || kill) (hooks s) (semval s) (semq s)
-                   (script s) (trace s) (teardown_n s) in
+                   (script s) (trace s) (teardown_n s) (dlocked s) (dlockq s) in
     if client_err s1 then
       let s2 := emit (setc s1 0 (with_io (getc s1 0) false WClosed)) (EClose 0) in
       main_disconnect s2
@@ -361,12 +428,12 @@ Definition run_main (s : st) : st :=
       let s2 := server_event s1 LStart in
       let x := getc s2 0 in
       let s3 := setc s2 0 (mkConn (c_addr x) P0 (Some PNone) false true (c_entry x) (c_writer x) (c_broken x)
-                                  (c_rd x) (c_wr x) (c_err x)) in
+                                  (c_rd x) (c_wr x) (c_err x) (c_cong x)) in
       set_main s3 MWaitHandler None
   | MWaitHandler => main_disconnect s
   | MHookDisc =>
     let n := length (conns s) in
-    let s0 := mkSt (conns s) (mainpc s) None (client_err s) (hooks s) (semval s) (semq s) (script s) (trace s) (Some n) in
+    let s0 := mkSt (conns s) (mainpc s) None (client_err s) (hooks s) (semval s) (semq s) (script s) (trace s) (Some n) (dlocked s) (dlockq s) in
     if existsb c_entry (conns s0) then
       let ws := waited (conns s0) 0 in
       let s1 := cancel_all s0 n 0 in
@@ -382,7 +449,7 @@ Definition run_main (s : st) : st :=
 (* ---------------------------------------------------------------- hook_task *)
 Definition geth (s : st) (k : nat) : hpc := nth k (hooks s) HDone.
 Definition seth (s : st) (k : nat) (p : hpc) : st :=
-  mkSt (conns s) (mainpc s) (mwk s) (client_err s) (upd (hooks s) k p) (semval s) (semq s) (script s) (trace s) (teardown_n s).
+  mkSt (conns s) (mainpc s) (mwk s) (client_err s) (upd (hooks s) k p) (semval s) (semq s) (script s) (trace s) (teardown_n s) (dlocked s) (dlockq s).
 Definition hook_ready (s : st) (k : nat) : bool :=
   Nat.ltb k (length (hooks s)) && match geth s k with H0 => true | HHook b => b | HDone => false end.
 Definition run_hook (s : st) (k : nat) : st :=
@@ -438,17 +505,28 @@ Definition step (s : st) (i : item) : option st :=
   | ATimeout =>
     let x := getc s 0 in
     Some (if c_entry x && c_task x then cancel s 0 else s)
+  | ACongest c =>
+    let x := getc s c in
+    if Nat.ltb c (length (conns s)) && match c_writer x with WNone => false | _ => true end
+    then Some (setc s c (with_cong x true)) else None
+  | ADrainDone c ok =>
+    let x := getc s c in
+    match c_pc x with
+    | PDrain _ _ => if Nat.ltb c (length (conns s)) && blocked x
+                    then Some (setc s c (with_wake x (Some (PDrainR ok)) false)) else None
+    | _ => None
+    end
   | ABreak c =>
     let x := getc s c in
     if Nat.ltb c (length (conns s)) && match c_writer x with WNone => false | _ => true end then
       Some (setc s c (mkConn (c_addr x) (c_pc x) (c_wk x) (c_cf x) (c_task x) (c_entry x) (c_writer x) true
-                             (c_rd x) (c_wr x) (c_err x)))
+                             (c_rd x) (c_wr x) (c_err x) (c_cong x)))
     else None
   end.
 
-Definition client0 : conn := mkConn None P0 None false false true WOpen false true true false.
+Definition client0 : conn := mkConn None P0 None false false true WOpen false true true false false.
 Definition init (sc : list (list cmd)) : st :=
-  mkSt [client0] M0 None false [] (fun _ => 5) (fun _ => []) sc [] None.
+  mkSt [client0] M0 None false [] (fun _ => 5) (fun _ => []) sc [] None false [].
 
 (* total version used by the theorems: a disabled item is a no-op *)
 Definition step' (s : st) (i : item) : st := match step s i with Some s' => s' | None => s end.
